@@ -240,6 +240,8 @@ type OpGen struct {
 	ValueDepth int
 	// NoRootOps: never add/replace/test "" nor copy from "".
 	NoRootOps bool
+	// MissKinds restricts the near-miss kinds (see Miss); nil = all ten.
+	MissKinds []int
 }
 
 var AllKinds = []string{"add", "add", "remove", "replace", "move", "copy", "test", "test"}
@@ -312,6 +314,9 @@ func (g *OpGen) Miss(t *rapid.T, cur *ref.V, label string) string {
 	cs := Containers(cur)
 	ls := Locations(cur)
 	kind := rapid.IntRange(0, 9).Draw(t, label+"mk")
+	if g.MissKinds != nil {
+		kind = rapid.SampledFrom(g.MissKinds).Draw(t, label+"mk")
+	}
 	c := cs[rapid.IntRange(0, len(cs)-1).Draw(t, label+"mc")]
 	switch kind {
 	case 0, 1: // absent member / index just outside
